@@ -36,6 +36,8 @@ reg("C05", "h_c05")
 reg("C06", "h_c06")
 reg("C06", "h_c01")
 reg("C12", "h_c12")
+reg("C07", "h_c07")
+reg("C15", "h_c15")
 
 # quick / thorough wall-clock budgets per check (seconds); hitting one ends the run with exhaustive:false
 DEADLINE = {"quick": 150, "thorough": 1500}
